@@ -102,6 +102,46 @@ theorem remote_order_irrelevant (m₁ m₂ x : Status) :
 theorem remote_redelivery_harmless (x m : Status) : join (join x m) m = join x m := by
   rw [join_assoc, join_idem]
 
+/-- **any number of messages in any order**: two deliveries of the same messages that are permutations of one another
+leave the same status (the two-message law lifted to lists of any length). -/
+theorem remote_any_order (x : Status) {ms₁ ms₂ : List Status} (h : ms₁.Perm ms₂) :
+    ms₁.foldl join x = ms₂.foldl join x := by
+  induction h generalizing x with
+  | nil => rfl
+  | cons m _ ih => simp only [List.foldl_cons]; exact ih _
+  | swap m₁ m₂ l => simp only [List.foldl_cons]; rw [remote_order_irrelevant]
+  | trans _ _ ih₁ ih₂ => exact (ih₁ x).trans (ih₂ x)
+
+/-- a message already among those applied changes nothing when it arrives again, however many others came in between. -/
+theorem remote_absorbs_known (ms : List Status) : ∀ (x m : Status), m ∈ ms → join (ms.foldl join x) m = ms.foldl join x := by
+  induction ms with
+  | nil => intro x m h; simp at h
+  | cons a ms ih =>
+    intro x m h
+    simp only [List.foldl_cons]
+    rcases List.mem_cons.mp h with rfl | h
+    · have hperm : (m :: ms).Perm (ms ++ [m]) := (List.perm_append_singleton m ms).symm
+      have e := remote_any_order x hperm
+      simp only [List.foldl_cons, List.foldl_append, List.foldl_nil] at e
+      rw [e]; exact remote_redelivery_harmless _ _
+    · exact ih _ m h
+
+/-- **duplicates and order together**: delivering a batch, then any re-delivery of messages of that batch (any subset,
+any order, any multiplicity), is the same as delivering the batch once. -/
+theorem remote_redelivery_of_batch (x : Status) (ms : List Status) : ∀ (dup : List Status), (∀ m ∈ dup, m ∈ ms) →
+    (ms ++ dup).foldl join x = ms.foldl join x := by
+  intro dup h
+  rw [List.foldl_append]
+  generalize hy : ms.foldl join x = y
+  have habs : ∀ m ∈ dup, join y m = y := fun m hm => hy ▸ remote_absorbs_known ms x m (h m hm)
+  clear h hy
+  induction dup with
+  | nil => rfl
+  | cons d dup ih =>
+    simp only [List.foldl_cons]
+    rw [habs d (by simp)]
+    exact ih (fun m hm => habs m (List.mem_cons_of_mem _ hm))
+
 end Bobo.Decider
 
 namespace Bobo.Net
